@@ -1018,6 +1018,13 @@ def run(tier):
             if _vals_differ(r) and backend == "c" and any(kernel_has_right_nested(fn) for fn in comp.functions.values()):
                 kind = "c-printer-right-nested-rounding"
             exact = exact_by_key.get(_tkey(r)) if _vals_differ(r) else None
+            if _vals_differ(r) and exact is None:
+                # the exact-value stage was cut by the wall budget: undecided, listed as not covered
+                if tier == "quick":
+                    rep.harness_error(f"{key}: exact-value stage did not run")
+                else:
+                    kernel_over_budget.append(key)
+                continue
             if exact is not None and exact["status"] in ("harness-error", "budget"):
                 if tier == "quick":
                     rep.harness_error(f"{key}: exact-value stage {exact['status']} {exact.get('error', '')[:200]}")
@@ -1038,7 +1045,7 @@ def run(tier):
                 else:
                     rep.harness_error(f"kernel value counterexample did not reproduce on the real back ends: {key}")
                 continue
-            structural = _vals_differ(r) and (exact is None or exact["status"] == "ok")
+            structural = _vals_differ(r) and exact is not None and exact["status"] == "ok"
             if structural:
                 # same values over the rationals: replay a few per kind on the real back ends (rounding inputs)
                 ck = (kind, backend)
